@@ -486,12 +486,13 @@ def run_differential(ctx, r, n):
 # ----------------------------------------------------------------------------------------------
 from harness.fakes import crawl  # noqa: E402
 
+REDIRECT_CODES = [301, 302, 303, 307, 308]
 OPTION_SETS = [
     ['-l', '2'], ['-l', '1'], ['-l', '1', '-p'], ['--no-parent'], ['--domains', 'h1'], ['--exclude-domains', 'sub.h1'],
     ['--hostnames', 'h1,h2'], ['--span-hosts'], ['--span-hosts-allow', 'page-requisites'], ['--span-hosts-allow', 'linked-pages'],
     ['--accept', '*.html,*.png'], ['--reject', '*.png'], ['--accept-regex', '/d/'], ['--reject-regex', 'a2'],
     ['--include-directories', '/d'], ['--exclude-directories', '/d/e'], ['--no-strong-redirects'], ['-p'],
-    ['--page-requisites-level', '1', '-p'], ['-l', '0'], ['-l', '3', '-p'], ['--exclude-hostnames', 'h2'],
+    ['--page-requisites-level', '1', '-p'], ['-l', '0'], ['-l', '3', '-p'], ['--exclude-hostnames', 'h2'], ['--sitemaps'], ['--sitemaps'],
 ]
 
 
@@ -539,14 +540,29 @@ def gen_site(r):
     h1['/d/r3'] = {'status': r.choice([307, 308]), 'location': u('h2', '/landed3.html'), 'body': ''}
     h2['/landed3.html'] = {'body': 'leaf'}
     h1['/d/r4'] = {'status': 302, 'location': '/d/land4.html', 'body': ''}
+    # a START URL that redirects to the other host: followed only under strong redirects (no recursion needed to reach it)
+    h1['/d/r5'] = {'status': r.choice(REDIRECT_CODES), 'location': u('h2', '/landed5.html'), 'body': ''}
+    h2['/landed5.html'] = {'body': crawl.html(links=['/landed5b.html'])}
+    h2['/landed5b.html'] = {'body': 'leaf'}
     for h in site:
         site[h]['/robots.txt'] = {'status': 404, 'body': ''}
+    # --sitemaps adds /robots.txt and /sitemap.xml of the start origin as links of the start page: out-of-scope URLs offered by a sitemap
+    h1['/robots.txt'] = {'status': 200, 'ctype': 'text/plain', 'body': 'User-agent: *\nDisallow:\nSitemap: http://h1:{PORT}/d/sitemap2.xml\n'}
+    sm = ('<?xml version="1.0"?><urlset xmlns="http://www.sitemaps.org/schemas/sitemap/0.9">' +
+          ''.join('<url><loc>%s</loc></url>' % x for x in (u('h2', '/sm-other.html'), u('h1', '/d/sm-in.html'), u('h1', '/sm-up.html'))) + '</urlset>')
+    h1['/sitemap.xml'] = {'status': 200, 'ctype': 'text/xml', 'body': sm}
+    h1['/d/sitemap2.xml'] = {'status': 200, 'ctype': 'text/xml', 'body': sm.replace('sm-', 'sm2-')}
+    for p in ('/d/sm-in.html', '/sm-up.html', '/d/sm2-in.html', '/sm2-up.html'):
+        h1[p] = {'body': 'leaf'}
+    for p in ('/sm-other.html', '/sm2-other.html'):
+        h2[p] = {'body': 'leaf'}
     return site
 
 
-def gen_crawl(r):
-    opts = []
-    for o in r.sample(OPTION_SETS, r.randrange(1, 4)):
+def gen_crawl(r, k=0):
+    """every third crawl runs with --no-strong-redirects (the hop to the other host must then not be requested)"""
+    opts = ['--no-strong-redirects'] if k % 3 == 0 else []
+    for o in r.sample(OPTION_SETS, r.randrange(0 if opts else 1, 4)):
         if any(x in opts for x in o if x.startswith('-')):
             continue
         if '--span-hosts' in o and '--span-hosts-allow' in opts or '--span-hosts-allow' in o and '--span-hosts' in opts:
@@ -554,7 +570,8 @@ def gen_crawl(r):
         opts += o
     rec = ['-r'] if (opts != ['-p'] and r.random() < 0.9) else []
     robots = [] if r.random() < 0.2 else ['--no-robots']
-    return {'args': ['http://h1:{PORT}/d/'] + rec + opts + robots + ['--tries', '2', '--concurrent', '1'], 'site': gen_site(r)}
+    return {'args': ['http://h1:{PORT}/d/', 'http://h1:{PORT}/d/r5'] + rec + opts + robots + ['--tries', '2', '--concurrent', '1'],
+            'site': gen_site(r)}
 
 
 def _page(site, host, path):
@@ -583,7 +600,7 @@ def check_crawl(spec, res, repo=None):
     for q in res['requests']:
         url = 'http://%s%s' % (q['hosthdr'], q['path'])
         page = _page(spec['site'], q['host'], q['path']) or {'status': 404}
-        if q['path'] == '/robots.txt':
+        if q['path'] == '/robots.txt' and not (url in rows and in_scope_py(a, hosts, parse(url), _rec(rows[url]), parse)[0]):
             stats['robots_requests'] += 1
             if '--no-robots' in spec['args'] or _origin(url) not in in_scope_origins:
                 viol.append({'why': 'robots-request-for-origin-not-visited', 'url': url})
@@ -661,7 +678,7 @@ def parsed_args(argvs):
 
 
 def run_crawls(ctx, r, n):
-    specs = [gen_crawl(r) for _ in range(n)]
+    specs = [gen_crawl(r, k) for k in range(n)]
     typed = parsed_args([s['args'] for s in specs])
     with ThreadPoolExecutor(max_workers=6) as ex:
         results = list(ex.map(lambda s: crawl.run_crawl(dict(s, repo=ctx.repo), timeout=90), specs))
@@ -689,9 +706,14 @@ def pregen(ctx):
 
 
 def correspondence(ctx):
+    # the evaluation models import the regenerated Gen/*.v: rebuild them (Props/*.vo does not depend on them)
+    ok, log = common.coq_make(['Model/FilterEval.vo'])
+    if not ok:
+        return {'evaluations': 0, 'distinct_nontrivial': 0, 'rule': 'evaluation model does not compile', 'samples': [],
+                'disagreements': [{'coq_error': log[-1500:]}], 'impl_violations': []}
     r = common.rng('c02')
-    diff = run_differential(ctx, r, 900 if not ctx.thorough else 20000)
-    agg, crawl_viol = run_crawls(ctx, common.rng('c02-crawl'), 36 if not ctx.thorough else 600)
+    diff = run_differential(ctx, r, 900 if not ctx.thorough else 12000)
+    agg, crawl_viol = run_crawls(ctx, common.rng('c02-crawl'), 36 if not ctx.thorough else 400)
     disagreements = diff['disagreements']
     # a crawl in which a request is not allowed is a violation of the property on the implementation AND breaks the tie of the model
     return {
@@ -725,9 +747,12 @@ def search(ctx, disagreements):
 
 
 def classify(v):
+    """the rule(s) of the scope that the requested / accepted URL violates, and whether the waiver was involved"""
+    b = v.get('bullets') or []
+    rules = '+'.join(b) if len(b) <= 2 else '%d-rules' % len(b)
     if v.get('kind') == 'crawl':
-        return '%s/%s' % (v.get('why'), '+'.join(v.get('bullets', [])) or '-')
-    return '%s/%s/%s' % (v.get('why'), 'waived' if v.get('is_redirect') == 'true' else 'plain', '+'.join(v.get('bullets', [])))
+        return '%s/%s/%s' % (v.get('why'), v.get('as', '-'), rules or '-')
+    return '%s/%s/%s' % (v.get('why'), 'waived' if v.get('is_redirect') == 'true' else 'plain', rules)
 
 
 def replay(ctx, data):
